@@ -79,6 +79,13 @@ def merge_cov(a, b):
 def _run_item(args):
     modname, item = args
     t0 = time.time()
+    crash = os.environ.get('VERIF_TEST_CRASH')       # self-test of the lost-worker path: die once on the named item
+    if crash and crash == item.get('name'):
+        mark = os.path.join(VERIF, '.run', 'crashed.' + slug(crash))
+        os.makedirs(os.path.dirname(mark), exist_ok=True)
+        if not os.path.exists(mark):
+            open(mark, 'w').close()
+            os._exit(9)
     try:
         # debugging aids: which item a worker is on, and SIGUSR1 -> python stack into .run/
         import faulthandler, signal
@@ -200,15 +207,28 @@ def main(mod, argv=None):
     if pool is not None:
         import concurrent.futures as cf
         results = []
-        futs = {pool.submit(_run_item, (mod.__name__, i)): i for i in items}
-        try:
-            for f in cf.as_completed(futs):
-                try:
-                    results.append(f.result())
-                except Exception as e:       # BrokenProcessPool: a worker died (memory limit, crash in the solver); never hang, never pass
-                    results.append(dict(item=futs[f], error=f'worker process lost ({type(e).__name__}: {e}); this item was not decided', tb='', wall_s=0.0))
-        finally:
-            pool.shutdown(wait=False, cancel_futures=True)
+        todo = list(items)
+        for attempt in range(3):
+            lost = []
+            futs = {pool.submit(_run_item, (mod.__name__, i)): i for i in todo}
+            try:
+                for f in cf.as_completed(futs):
+                    try:
+                        results.append(f.result())
+                    except Exception as e:       # BrokenProcessPool: a worker died (memory limit, crash inside the solver library)
+                        lost.append((futs[f], f'{type(e).__name__}: {e}'))
+            finally:
+                pool.shutdown(wait=False, cancel_futures=True)
+            if not lost:
+                break
+            if attempt == 2:
+                # never hang, never pass: what could not be decided after two fresh pools is an error
+                results += [dict(item=i, error=f'worker process lost ({why}); this item was not decided', tb='', wall_s=0.0) for i, why in lost]
+                break
+            # one crashed worker takes the whole executor down: start a fresh one for the items that were not decided
+            print(f'note: a worker process died; re-running {len(lost)} undecided item(s) in a fresh pool (attempt {attempt + 2})', flush=True)
+            todo = [i for i, _ in lost]
+            pool = cf.ProcessPoolExecutor(max_workers=max(1, min(nproc, len(todo))), mp_context=ctxm, initializer=_worker_init)
     else:
         _worker_init()
         results = [_run_item((mod.__name__, i)) for i in items]
